@@ -329,7 +329,20 @@ def gen_consts(tier, seed, fams=None, muts=None, flags=None, stride=None, combo=
 
 def main_vectors(ctx):
     """the vector set shared by C02/C03/C04 (same constants => same cache entry)"""
-    return generate(ctx, "gen_main", gen_consts(ctx.tier, ctx.seed), timeout=1500)
+    vecs = generate(ctx, "gen_main", gen_consts(ctx.tier, ctx.seed), timeout=1500)
+    # vacuity: every mutation kind, every family and every reference verdict must actually occur
+    kinds, fams, verdicts = {}, {}, {}
+    for v in vecs:
+        kinds[v["mut"]["k"]] = kinds.get(v["mut"]["k"], 0) + 1
+        fams[v["fam"]] = fams.get(v["fam"], 0) + 1
+        k = v["dec"][0]["k"]
+        verdicts[k] = verdicts.get(k, 0) + 1
+    missing = [x for x in ["none"] + ALL_MUTS if not kinds.get(x)] + [x for x in MAIN_FAMS if not fams.get(x)] + \
+              [x for x in ("WF", "Lenient", "Malformed") if not verdicts.get(x)]
+    if missing:
+        raise vlib.MachineryError("generated vector set is vacuous for: %s" % missing)
+    ctx.notes["vectors"] = {"by_mutation": kinds, "by_family": fams, "by_reference_verdict_flags0": verdicts}
+    return vecs
 
 
 def big_vectors(ctx):
